@@ -45,3 +45,8 @@ CASES += [
     {"name": "first-interval width looked up with the pair reversed", "kind": "twin", "edits": [
         (ASP, "                                        self.get_transition_width((i2e, i1g))", "                                        self.get_transition_width((i1g, i2e))", 5)]},
 ]
+
+CASES += [
+    {"name": "unknown keyword to liouville_pathways_3T (the repaired defect)", "kind": "mutant", "rule": "C12-A", "edits": [
+        (ASP, "                                eUt=qr.qm.SOpUnity(dim=ham.dim), ham=ham,", "                                eUt2=qr.qm.SOpUnity(dim=ham.dim),", 1)]},
+]
